@@ -174,8 +174,10 @@ class Outcome:
         return "doc" if self.text else "nothing"
 
 
-def decode(data: bytes, config=None, exit_on_error=False, parse=True) -> Outcome:
-    """parsePEL on `data`, capturing everything a caller can observe."""
+def decode(data: bytes, config=None, exit_on_error=False, parse=True, embed=None) -> Outcome:
+    """parsePEL on `data`, capturing everything a caller can observe.  embed=(before, after): the PEL sits inside a larger
+    stream (a container, several PELs back to back) whose cursor stands at the PEL's first byte, as parsePEL's in/out
+    stream parameter allows; final_index is reported relative to the PEL's start."""
     r = repo()
     o = Outcome()
     cfg = config if config is not None else make_config(every_pel=True)
@@ -184,7 +186,11 @@ def decode(data: bytes, config=None, exit_on_error=False, parse=True) -> Outcome
     try:
         with contextlib.redirect_stdout(so), contextlib.redirect_stderr(se):
             # peltool hands the file content (bytes) to DataStream, exactly as here
-            stream = r["DataStream"](bytes(data), byte_order="big", is_signed=False)
+            if embed:
+                stream = r["DataStream"](bytes(embed[0]) + bytes(data) + bytes(embed[1]), byte_order="big", is_signed=False)
+                stream.index = len(embed[0])
+            else:
+                stream = r["DataStream"](bytes(data), byte_order="big", is_signed=False)
             o.eid, o.text = r["pt"].parsePEL(stream, cfg, exit_on_error)
     except SystemExit as e:
         o.exit = e.code
@@ -192,6 +198,8 @@ def decode(data: bytes, config=None, exit_on_error=False, parse=True) -> Outcome
         o.exc = e
     o.out, o.err = so.getvalue(), se.getvalue()
     o.final_index = getattr(stream, "index", None)
+    if embed and o.final_index is not None:
+        o.final_index -= len(embed[0])
     if parse and o.text:
         try:
             o.doc = json.loads(o.text)
@@ -199,6 +207,30 @@ def decode(data: bytes, config=None, exit_on_error=False, parse=True) -> Outcome
         except ValueError as e:
             o.doc = None
             o.exc = o.exc or e
+    return o
+
+
+def cli_outcome(argv, text_from=None) -> Outcome:
+    """peltool main() in-process; the printed document (or the file `text_from`) as an Outcome like decode()'s."""
+    rc, so, se, tb = cli(argv)
+    o = Outcome()
+    o.err = se
+    text = so
+    if text_from is not None:
+        try:
+            with open(text_from) as f:
+                text = f.read()
+        except OSError:
+            text = ""
+    if tb:
+        o.exc = RuntimeError(tb[-400:])
+        return o
+    try:
+        o.doc = json.loads(text)
+        o.pairs = json.loads(text, object_pairs_hook=list)
+        o.text = text
+    except ValueError as e:
+        o.exc = e
     return o
 
 
